@@ -285,20 +285,25 @@ class C12UpdateN2(_C12Update):
 class C12UpdateN2Sym(_C12Update):
     name = "C12.modeb.update.n2.symbolic_geometry"
     bounded = ("exact symbolic execution, n=2, npt=3, every k_new; " + PRE + "geometry FULLY SYMBOLIC (x_base, all points, x_new "
-               "are symbols); npt=4 (k_new=0) only in the thorough tier; larger npt with symbolic geometry did not finish and "
-               "are not claimed")
-    plan = [(2, 3, range(3), True, True, True)] + ([(2, 4, [0], True, True, False)] if THOROUGH else [])
+               "are symbols); npt=4 with symbolic geometry did not finish in 150 s and is not claimed")
+    plan = [(2, 3, range(3), True, True, True)]
 
 
 class C12UpdateN3(_C12Update):
-    name = "C12.modeb.update.n3"
-    bounded = ("exact symbolic execution, n=3, npt in {4,7,10}; " + PRE +
-               "seeded generic rational geometry (VERIF_SEED); x_new SYMBOLIC for npt=4 (every k_new), npt=7 (k_new 0,6) and "
-               "npt=10 (k_new 0,9); x_new generic rational for the remaining k_new of npt=7")
-    plan = [(3, 4, range(4), False, True, True), (3, 7, [0, 6], False, True, True), (3, 10, [0, 9], False, True, False),
-            (3, 7, range(1, 6), False, False, False)]
-    if THOROUGH:
-        plan = plan + [(3, 10, range(1, 9), False, True, False)]
+    name = "C12.modeb.update.n3.npt4_7"
+    bounded = ("exact symbolic execution, n=3, npt in {4,7}; " + PRE +
+               "seeded generic rational geometry (VERIF_SEED); x_new SYMBOLIC for npt=4 (every k_new) and npt=7 (k_new 0,6); "
+               "x_new generic rational for the remaining k_new of npt=7 (thorough tier: symbolic for every k_new)")
+    plan = [(3, 4, range(4), False, True, True), (3, 7, [0, 6], False, True, False),
+            (3, 7, range(1, 6), False, THOROUGH, False)]
+
+
+class C12UpdateN3Big(_C12Update):
+    name = "C12.modeb.update.n3.npt10"
+    bounded = ("exact symbolic execution, n=3, npt=10; " + PRE +
+               "seeded generic rational geometry (VERIF_SEED); x_new SYMBOLIC for k_new 0 and 9, generic rational x_new for "
+               "k_new 1..8 (thorough tier: symbolic for every k_new)")
+    plan = [(3, 10, [0, 9], False, True, False), (3, 10, range(1, 9), False, THOROUGH, False)]
 
 
 class C12UpdateIll(_ModeB):
@@ -349,5 +354,5 @@ class C12ShiftN3(_C12Shift):
         + ([(3, 10, True, False)] + [(4, p, True, False) for p in (5, 9, 15)] if THOROUGH else [])
 
 
-UNITS = [C12FreshSym(), C12FreshRat(), C12UpdateN1(), C12UpdateN2(), C12UpdateN2Sym(), C12UpdateN3(), C12UpdateIll(),
+UNITS = [C12FreshSym(), C12FreshRat(), C12UpdateN1(), C12UpdateN2(), C12UpdateN2Sym(), C12UpdateN3(), C12UpdateN3Big(), C12UpdateIll(),
          C12ShiftSmall(), C12ShiftN3()]
